@@ -2,7 +2,7 @@
 macro and the identical std chain on every input and prints both."""
 import json
 
-INPUTS = [[], [1], [1, 2, 3, 4], [3, 1, 2], [2, 4, 6, 8, 5]]
+INPUTS = [[], [1], [1, 2, 3, 4], [3, 1, 2], [2, 4, 6, 8, 5], [2, 2, 2]]
 U = ("u",)
 
 
@@ -186,4 +186,66 @@ def case(r):
     body = "%s %s %s %s %s" % (pre, ins, kf, sf, call)
     exp = "|".join(render(x) for x in r["exp"])
     model = "|".join(render(x) for x in r["model"])
+    return body, exp, model
+
+
+# ---------------------------------------------------------------------------------------------- other source kinds
+def source_expr(kind, inp, idx):
+    """-> (const items, source tokens incl. leading adapters) for input `inp`, or None when the kind cannot denote it"""
+    lit = ", ".join("%du64" % x for x in inp)
+    if kind == "array":
+        return "const A%d: [u64; %d] = [%s];" % (idx, len(inp), lit), "&A%d, copied()" % idx
+    if kind == "iter_copied":
+        return "const I%d: &[u64] = &[%s];" % (idx, lit), "konst::slice::iter_copied(I%d)" % idx
+    if kind == "range":
+        a = inp[0] if inp else 1
+        return "", "%du64..%du64" % (a, a + len(inp))
+    if kind == "range_incl":
+        a = inp[0] if inp else 1
+        return "", "%du64..=%du64" % (a, a + len(inp) - 1) if (inp or a > 0) else None
+    if kind == "chars":
+        s = "".join("\\u{%x}" % x for x in inp)
+        return "const S%d: &str = \"%s\";" % (idx, s), "konst::string::chars(S%d), map(|c| c as u64)" % idx
+    if kind == "repeat_take":
+        return "", "konst::iter::repeat(%du64), take(%d)" % (inp[0], len(inp))
+    return None
+
+
+def has_rev(r):
+    return any(a["k"] == "rev" for a in r["chain"]) or r["cons"] in ("rfind", "rfold", "rposition")
+
+
+def alt_source_case(r, kind):
+    """The same chain started from another kind of source, on the inputs that kind can denote.
+    -> (body, exp, model) or None"""
+    chain, cons, n = r["chain"], r["cons"], r["n"]
+    idxs = [q for q, ks in enumerate(r["srcs"]) if kind in ks]
+    # take(k) right after repeat(v) is part of the source: a reversing method later would make it the known shape
+    if kind == "repeat_take" and has_rev(r):
+        return None
+    if not idxs:
+        return None
+    kparts, ty = adapters_text(chain, False)
+    p, key = pat_key(ty, Names())
+    tail = "".join(", " + x for x in kparts)
+    pre = "const ZO: &[u64] = &[10, 20, 30];"
+    outs = []
+    for q in idxs:
+        se = source_expr(kind, INPUTS[q], q)
+        if se is None:
+            return None
+        items, src = se
+        if cons == "for_each":
+            outs.append("{ %s let mut out: Vec<u64> = Vec::new(); konst::iter::for_each!{%s in %s%s => out.push(%s); } format!(\"{:?}\", out) }"
+                        % (items, p, src, tail, key))
+        elif cons == "collect":
+            outs.append("{ %s const A: &[%s] = &konst::iter::collect_const!(%s => %s%s); format!(\"{:?}\", A.iter().map(|&%s| %s).collect::<Vec<u64>>()) }"
+                        % (items, real_ty(chain), real_ty(chain), src, tail, p, key))
+        else:
+            ct, post = consumer_text(cons, n, ty, False)
+            postk = (".map(|%s| %s)" % post) if post else ""
+            outs.append("{ %s format!(\"{:?}\", konst::iter::eval!(%s%s, %s)%s) }" % (items, src, tail, ct, postk))
+    body = "%s let v: Vec<String> = vec![%s]; format!(\"K:{}\", v.join(\"|\"))" % (pre, ", ".join(outs))
+    exp = "|".join(render(r["exp"][q]) for q in idxs)
+    model = "|".join(render(r["model"][q]) for q in idxs)
     return body, exp, model
